@@ -6,6 +6,7 @@ Mirrors, as the code is now in /repo:
   `NAMES_DICT_NON_VOID` in dict order, the `#output = ` prefix), on character lists;
 * `utils.makeRPN` at character level (nine precedence groups, right-to-left scan at depth 0,
   `strip`, outer-parenthesis stripping) and `Track.__prime` / `__double_prime`;
+* `Track.__getitem__` with a string (expression or feature name) and the default output name of `Track.operate(operator, …)`;
 * `Track.__evaluateRPN` / `Track.__applyOperation` (stack machine, `#k` temporaries, dispatch on
   `=`, literal∘literal, `@`, AF∘AF, AF∘scalar `s+`…, scalar∘AF `sr+`…) and the purge of `Track.operate`;
 * the vector functions of core/operators.py for `+ - * / ^ < >`, `I D D2 ABS SQRT LOG DIODE SIGN EXP COS SIN TAN`,
@@ -811,6 +812,22 @@ def evaluate (tr : Tr α) (expr : Str) : Res α (Option (List α)) :=
 def operate (tr : Tr α) (expr : Str) : Res α (Option (List α)) :=
   let r := evaluate tr expr
   (r.1, purge r.2)
+
+/-- the characters `Track.__getitem__` looks for to decide that a string is an expression (braces are not among them) -/
+def exprChars : List Char := ['+', '-', '/', '*', '^', '>', '<', '(', ')', '=', '\'']
+
+/-- `Track.__getitem__(n)` with a string: `n.strip()`, then `operate(n)` when `n` contains one of `exprChars`,
+    else `getAnalyticalFeature(n)` -/
+def getitemStr (tr : Tr α) (n : Str) : Res α (Option (List α)) :=
+  let n := strip n
+  if n.any (fun c => exprChars.contains c) then operate tr n
+  else match getAF tr n with
+    | .ok c => (.ok (some c), tr)
+    | .error e => (.error e, tr)
+
+/-- `Track.operate(operator, arg1, …, out)`: "when output AF name is not provided, it is automatically set as the
+    first AF input" (`if arg3 == None: arg3 = arg1`) -/
+def defaultOut (out : Option Str) (in1 : Str) : Str := out.getD in1
 
 /-! ## Specification side: expression trees -/
 
